@@ -520,13 +520,21 @@ def filter_offsets_agree(crate):
     return P.finish(ex, res, ["decoded, non-empty range part", "encoded"])
 
 
-def load_in_memory_count(crate):
+def index_load_cancel_safe(crate):
+    """C14/C04: IndexStruct::load (reached from Blob::load_index: delete into a closed blob, restore of the active blob):
+    at every suspension point inside the load the index is either still OnDisk (a dropped future changed nothing) or
+    already InMemory holding the map that was read from the file - never an empty in-memory placeholder, which a dropped
+    future would leave behind (every key of the blob NotFound until restart)."""
+    return load_in_memory_count(crate, which="load")
+
+
+def load_in_memory_count(crate, which="load_in_memory"):
     """C15: IndexStruct::load_in_memory (with InMemoryData::new): after a successful load the in-memory record count is
     the count reported by FileIndex::get_records_headers (= records_count of the index file header = number of record
     headers stored), and the loaded map is the one installed; a failed load leaves the index on disk."""
-    res = P.ObResult("load_in_memory_count")
-    fn = crate.method("IndexStruct", "load_in_memory")
-    res.functions = ["IndexStruct::load_in_memory (async body)", "InMemoryData::new"]
+    res = P.ObResult("load_in_memory_count" if which == "load_in_memory" else "index_load_cancel_safe")
+    fn = crate.method("IndexStruct", which) if which == "load_in_memory" else crate.method("IndexStruct", "load", trait="IndexTrait")
+    res.functions = ["IndexStruct::%s (async body)" % which, "InMemoryData::new"] + (["IndexStruct::load_in_memory (async body)"] if which == "load" else [])
     res.bounds = "one load, arbitrary count (< 2^40) and map (single-key model: queried key present or not, arbitrary number of other keys), every outcome of the callees"
     from . import iters as IT
 
@@ -536,7 +544,8 @@ def load_in_memory_count(crate):
             # capacity bookkeeping over all per-key vectors: an arbitrary usize (records_allocated is not part of the claim)
             return [(ex_.fresh(dty, st_, "alloc"), None)]
         return IT.h_fold(ex_, st_, frame, t, nf, args, dty)
-    ex = P.mk_executor(crate, cap=3, loop_bound=4, inline=[r"^InMemoryData::new$"], extra_summaries=[(r"(^|::)fold$", h_values_fold)],
+    ex = P.mk_executor(crate, cap=3, loop_bound=4, inline=[r"^InMemoryData::new$", r"^IndexStruct::(load_in_memory|on_disk)$"] if which == "load" else [r"^InMemoryData::new$"],
+                       extra_summaries=[(r"(^|::)fold$", h_values_fold)],
                        havoc=[r"^<FileIndex as (\S*::)?FileIndexTrait<K>>::", r"^(std::collections::)?BTreeMap::values$", r"^(std::collections::btree_map::)?Values<.*>::fold$", r"^<.*Values<.*> as Iterator>::fold$"])
     st = State()
     fi = crate.field_index("IndexStruct", "inner")
@@ -549,7 +558,21 @@ def load_in_memory_count(crate):
     st.pc.append(z3.ULT(count, BV64(1 << 40)))
     the_map = {}
 
+    def probe(ex_, st_, name):
+        """state of the index at a suspension point"""
+        inner = st_.mem[ic].fields[(None, fi)]
+        d = ex_.get_discr(st_, inner).t
+        mp_ok = None
+        lock = inner.fields.get(("InMemory", 0)) if isinstance(inner, Obj) else None
+        data = lock.fields.get((None, 7000)) if isinstance(lock, Obj) else None
+        if isinstance(data, Obj):
+            mp = data.fields.get((None, crate.field_index("InMemoryData", "headers")))
+            mp_ok = isinstance(mp, Obj) and mp.oid == the_map.get("oid")
+        st_.events.append(("suspend", name, d, mp_ok))
+
     def hook(ex_, st_, name, fargs, out_ty, dty):
+        if which == "load" and ("get_records_headers" in name or name.endswith("read_meta")):
+            probe(ex_, st_, name)
         if "get_records_headers" in name:
             r = ex_.fresh(out_ty, st_, "loaded")
             tup = r.fields[("Ok", 0)]
@@ -564,9 +587,31 @@ def load_in_memory_count(crate):
             return [(S.poll_ready(dty, r), None)]
         return S.tag_reads_hook(ex_, st_, name, fargs, out_ty, dty)      # read_meta: tagged raw error (classification check)
     ex.await_hook = hook
-    outs = P.drive_async(ex, st, fn, [Ref(ic, (), True, "&mut IndexStruct<FileIndex, K>"), Obj("FileIndex"), Sym(z3.BitVec("blob_size", 64), "u64")])
+    if which == "load":
+        state.fields[("OnDisk", 0)] = Obj("FileIndex")
+        outs = P.drive_async(ex, st, fn, [Ref(ic, (), True, "&mut IndexStruct<FileIndex, K>"), Sym(z3.BitVec("blob_size", 64), "u64")])
+    else:
+        outs = P.drive_async(ex, st, fn, [Ref(ic, (), True, "&mut IndexStruct<FileIndex, K>"), Obj("FileIndex"), Sym(z3.BitVec("blob_size", 64), "u64")])
     res.paths = len(outs)
     ST = crate.enums["State"]
+    if which == "load":
+        from .ob_blob import _check_paths as _cp
+
+        def per_path_load(o, isok, payload):
+            sus = [e for e in o.events if e[0] == "suspend"]
+            if not sus:
+                res.status = "violated"; res.detail = "an on-disk index is reported loaded without reading the file"; return False
+            for e in sus:
+                on_disk = e[2] == BV64(ST["OnDisk"])
+                if e[3] is True:
+                    P.cover(ex, res, o, z3.Not(on_disk), "suspended with the loaded map installed")
+                    continue
+                if not P.prove(ex, res, o, on_disk, "at the suspension point '%s' the index is still on disk or already holds the loaded map (a dropped future loses nothing)" % e[1].rsplit("::", 1)[-1]):
+                    return False
+                P.cover(ex, res, o, on_disk, "suspended while still on disk")
+            return True
+        _cp(ex, res, outs, per_path_load)
+        return P.finish(ex, res, ["suspended while still on disk", "suspended with the loaded map installed"])
 
     def per_path(o, isok, payload):
         evs = P.events_of(o)
